@@ -338,4 +338,362 @@ Section WorldProofs.
 
   Theorem C15_filter m : (forall e, m <> MSent e) -> forwarded m = [].
   Proof. intros H. destruct m; try reflexivity. exfalso. eapply H; reflexivity. Qed.
+
+  (* ---------------------------------------------------------------- property statecharts *)
+  (* PropertyStatechartListener.__call__: queue the meta-event, execute(), raise if final *)
+  Definition prop_run (w : world) (now : Z) (m : meta) (psc : chart) (ps : istate ctx) :=
+    execute0 psc (w_fuel w) now (queue_event ps (meta_to_event m)).
+
+  Definition prop_outcome (id : nat) (ms : mstate ctx unit) (res : list macrostep + err) : option err :=
+    match res with
+    | inr e => Some e
+    | inl _ => if is_final (m_i ms) then Some (EProperty id) else None
+    end.
+
+  (* C10_failfast (property statecharts).  The listener of a property statechart raises the error
+     of its interpreter's own execution if there is one, otherwise PropertyStatechartError exactly
+     when that interpreter is final after having executed the meta-event at the monitored
+     interpreter's step time; the property interpreter keeps its new state in both cases. *)
+  Theorem C10_failfast_prop now m id w psc ps :
+    prop w id = Some (psc, ps) ->
+    deliver_one now m (LProp id) w =
+      (mkWorld (w_listeners w) (w_logs w) (w_calls w) (w_bound w)
+               (nset id (psc, m_i (fst (prop_run w now m psc ps))) (w_props w))
+               (m_tr (fst (prop_run w now m psc ps)) ++ w_tr w) (w_fuel w),
+       prop_outcome id (fst (prop_run w now m psc ps)) (snd (prop_run w now m psc ps))).
+  Proof.
+    unfold prop, prop_run, prop_outcome. intros P. cbn [World.deliver_one]. rewrite P.
+    destruct (World.execute0 _ _ _ _ _ _ _) as [ms [res|e]]; cbn [fst snd]; [|reflexivity].
+    destruct (is_final (m_i ms)); reflexivity.
+  Qed.
+
+  Corollary C10_failfast_prop_iff now m id w psc ps macros :
+    prop w id = Some (psc, ps) ->
+    snd (prop_run w now m psc ps) = inl macros ->
+    (snd (deliver_one now m (LProp id) w) = Some (EProperty id)
+       <-> is_final (m_i (fst (prop_run w now m psc ps))) = true) /\
+    (snd (deliver_one now m (LProp id) w) = None
+       <-> is_final (m_i (fst (prop_run w now m psc ps))) = false).
+  Proof.
+    intros P R. rewrite (C10_failfast_prop _ _ _ _ _ _ P). cbn [snd]. unfold prop_outcome.
+    rewrite R. destruct (is_final _); split; split; intros H; try reflexivity; discriminate.
+  Qed.
+
+  Lemma deliver_one_prop_unbound now m id w : prop w id = None -> deliver_one now m (LProp id) w = (w, None).
+  Proof. unfold prop. intros P. cbn [World.deliver_one]. now rewrite P. Qed.
+
+  (* C10_sync.  While handling a meta-event at the monitored interpreter's step time now, every
+     execute_once of the property interpreter runs at now: afterwards its time is now, every
+     evaluator call it made (appended to w_tr) saw time = now, every macro step it returned is
+     stamped now. *)
+  Theorem C10_sync now m id w psc ps w' r :
+    prop w id = Some (psc, ps) -> w_fuel w <> O ->
+    deliver_one now m (LProp id) w = (w', r) ->
+    exists ps', prop w' id = Some (psc, ps') /\ i_time ps' = now /\
+      (exists l, w_tr w' = l ++ w_tr w /\ Forall (time_obs ctx now) l) /\
+      (forall macros, snd (prop_run w now m psc ps) = inl macros -> Forall (fun ms => fst ms = now) macros).
+  Proof.
+    intros P Hf H. rewrite (C10_failfast_prop _ _ _ _ _ _ P) in H. inversion H; subst w' r. clear H.
+    unfold prop_run, World.execute0.
+    destruct (execute ctx unit exec_code eval_code emit0 psc (w_fuel w) now _) as [ms res] eqn:E.
+    apply C10_sync_execute in E. destruct E as (T & (l & L & F & _) & Mac). cbn [fst snd].
+    exists (m_i ms). repeat split.
+    - unfold prop; cbn. apply nlookup_nset_eq.
+    - destruct T as [T|T]; [contradiction | exact T].
+    - exists l. cbn in L. rewrite app_nil_r in L. cbn. rewrite L. auto.
+    - exact Mac.
+  Qed.
+
+  (* ---------------------------------------------------------------- successive meta-events *)
+  Notation feed1 := (feed world emit1).
+  Notation feed_ok1 := (feed_ok world emit1).
+
+  Lemma emit1_frame now m w :
+    w_listeners (fst (emit1 now m w)) = w_listeners w /\ w_fuel (fst (emit1 now m w)) = w_fuel w.
+  Proof.
+    unfold World.emit1. destruct (deliver now m (w_listeners w) w) as [w' r] eqn:E. cbn.
+    apply deliver_called in E. destruct E as (called & _ & -> & _). apply run_frame.
+  Qed.
+
+  Lemma emit1_called now m w :
+    exists called, prefix called (w_listeners w) /\ fst (emit1 now m w) = run now m called w.
+  Proof.
+    unfold World.emit1. destruct (deliver now m (w_listeners w) w) as [w' r] eqn:E. cbn.
+    apply deliver_called in E. destruct E as (called & Pc & -> & _). eauto.
+  Qed.
+
+  Lemma feed1_listeners now ms : forall w, w_listeners (feed1 now ms w) = w_listeners w.
+  Proof.
+    induction ms as [|m ms IH]; intros w; [reflexivity|].
+    change (feed1 now (m :: ms) w) with (feed1 now ms (fst (emit1 now m w))).
+    rewrite IH. apply emit1_frame.
+  Qed.
+
+  (* Delivery order: listener-minor in binding order (run is a left fold over the listener
+     list), event-major (feed is a left fold over the meta-events). *)
+  Lemma feed1_ok_run now ms : forall w,
+    feed_ok1 now ms w ->
+    feed1 now ms w = fold_left (fun w m => run now m (w_listeners w) w) ms w.
+  Proof.
+    induction ms as [|m ms IH]; intros w H; [reflexivity|].
+    destruct H as [H1 H2].
+    change (feed1 now (m :: ms) w) with (feed1 now ms (fst (emit1 now m w))).
+    rewrite (IH _ H2). cbn [fold_left]. unfold World.emit1. now rewrite deliver_ok_run.
+  Qed.
+
+  Lemma feed1_log now ms id : forall w,
+    feed_ok1 now ms w ->
+    log (feed1 now ms w) id =
+    log w id ++ flat_map (fun m => repeat m (count (is_rec id) (w_listeners w))) ms.
+  Proof.
+    induction ms as [|m ms IH]; intros w H.
+    - cbn. now rewrite app_nil_r.
+    - destruct H as [H1 H2].
+      change (feed1 now (m :: ms) w) with (feed1 now ms (fst (emit1 now m w))).
+      rewrite (IH _ H2). destruct (emit1_frame now m w) as [-> _].
+      unfold World.emit1 at 1. rewrite deliver_ok_run by exact H1. rewrite run_log.
+      cbn [flat_map]. now rewrite <- app_assoc.
+  Qed.
+
+  Lemma feed1_calls now ms id : forall w,
+    feed_ok1 now ms w ->
+    calls (feed1 now ms w) id =
+    calls w id ++ flat_map (fun m => concat (repeat (forwarded m) (count (is_callable id) (w_listeners w)))) ms.
+  Proof.
+    induction ms as [|m ms IH]; intros w H.
+    - cbn. now rewrite app_nil_r.
+    - destruct H as [H1 H2].
+      change (feed1 now (m :: ms) w) with (feed1 now ms (fst (emit1 now m w))).
+      rewrite (IH _ H2). destruct (emit1_frame now m w) as [-> _].
+      unfold World.emit1 at 1. rewrite deliver_ok_run by exact H1. rewrite run_calls.
+      cbn [flat_map]. now rewrite <- app_assoc.
+  Qed.
+
+  Lemma feed1_bound now ms id : forall w,
+    feed_ok1 now ms w ->
+    bound (feed1 now ms w) id =
+    option_map (queue_all (flat_map (fun m => concat (repeat (forwarded m) (count (is_interp id) (w_listeners w)))) ms))
+               (bound w id).
+  Proof.
+    induction ms as [|m ms IH]; intros w H.
+    - cbn. now destruct (bound w id).
+    - destruct H as [H1 H2].
+      change (feed1 now (m :: ms) w) with (feed1 now ms (fst (emit1 now m w))).
+      rewrite (IH _ H2). destruct (emit1_frame now m w) as [-> _].
+      unfold World.emit1 at 1. rewrite deliver_ok_run by exact H1. rewrite run_bound.
+      destruct (bound w id) as [bi|]; cbn [option_map flat_map]; [|reflexivity].
+      unfold queue_all. now rewrite fold_left_app.
+  Qed.
+
+  Lemma flat_map_single {A} (l : list A) : flat_map (fun m => [m]) l = l.
+  Proof. induction l as [|x l IH]; cbn; congruence. Qed.
+
+  Lemma flat_map_forwarded ms : flat_map forwarded ms = map as_external (sent_events_of ms).
+  Proof.
+    induction ms as [|m ms IH]; [reflexivity|]. cbn [flat_map]. unfold sent_events_of in *.
+    cbn [flat_map]. rewrite map_app, <- IH. destruct m; reflexivity.
+  Qed.
+
+  (* ---------------------------------------------------------------- end to end: execute_once1 *)
+  (* what the listeners went through during one execute_once of the monitored interpreter *)
+  Lemma execute_once1_listeners sc fuel now s w ms r :
+    execute_once1 sc fuel now s w = (ms, r) ->
+    i_time (m_i ms) = now /\
+    m_x ms = feed1 now (tr_metas ctx (m_tr ms)) w /\
+    emits_ok ctx world emit1 now (m_tr ms) w (err_of r).
+  Proof.
+    unfold World.execute_once1. intros H. apply C13_frozen in H.
+    destruct H as (T & (l & L & _ & Hx & O) & _). cbn [m_tr m_x] in *. rewrite app_nil_r in L. subst l.
+    auto.
+  Qed.
+
+  (* C10_complete, listener side.  During an execute_once that returns macro, a recorder attached
+     once receives exactly spec_meta now macro: every meta-event once, in order. *)
+  Theorem C10_complete_recorder sc fuel now s w ms macro id :
+    names_ok sc ->
+    execute_once1 sc fuel now s w = (ms, inl macro) ->
+    count (is_rec id) (w_listeners w) = 1 ->
+    log (m_x ms) id = log w id ++ spec_meta sc now macro.
+  Proof.
+    intros Hn H C. pose proof (execute_once1_listeners _ _ _ _ _ _ _ H) as (_ & Hx & O).
+    apply emits_ok_None in O.
+    unfold World.execute_once1 in H. apply (C10_complete _ _ _ _ _ _ _ _ _ _ _ Hn) in H.
+    destruct H as (l & L & Ml). cbn [m_tr] in L. rewrite app_nil_r in L. subst l.
+    rewrite Hx, (feed1_log _ _ _ _ O), C, Ml. cbn [repeat].
+    now rewrite (flat_map_single (spec_meta sc now macro)).
+  Qed.
+
+  (* C15_delivery, end to end.  During an execute_once that returns macro, a callable bound once
+     receives, as external events with the same name and parameters, exactly the internal events
+     of macro.sent_events, in order; a bound interpreter gets them queued (external queue, its own
+     time + delay), in that order.  Nothing for user meta-events or consumed events. *)
+  Theorem C15_delivery_complete sc fuel now s w ms macro id :
+    names_ok sc ->
+    execute_once1 sc fuel now s w = (ms, inl macro) ->
+    (count (is_callable id) (w_listeners w) = 1 ->
+       calls (m_x ms) id = calls w id ++ map as_external (macro_internal_sent macro)) /\
+    (count (is_interp id) (w_listeners w) = 1 ->
+       bound (m_x ms) id = option_map (queue_all (map as_external (macro_internal_sent macro))) (bound w id)).
+  Proof.
+    intros Hn H. pose proof (execute_once1_listeners _ _ _ _ _ _ _ H) as (_ & Hx & O).
+    apply emits_ok_None in O.
+    unfold World.execute_once1 in H. apply (C10_complete _ _ _ _ _ _ _ _ _ _ _ Hn) in H.
+    destruct H as (l & L & Ml). cbn [m_tr] in L. rewrite app_nil_r in L. subst l.
+    assert (E : forall n, n = 1 ->
+                flat_map (fun m => concat (repeat (forwarded m) n)) (spec_meta sc now macro)
+                = map as_external (macro_internal_sent macro)).
+    { intros n ->. rewrite <- sent_events_spec_meta with (sc := sc) (now := now).
+      rewrite <- flat_map_forwarded. apply flat_map_ext. intros m. cbn. apply app_nil_r. }
+    split; intros C.
+    - rewrite Hx, (feed1_calls _ _ _ _ O), Ml. now rewrite (E _ C).
+    - rewrite Hx, (feed1_bound _ _ _ _ O), Ml. now rewrite (E _ C).
+  Qed.
+
+  Lemma count_prefix p called ls : prefix called ls -> count p called <= count p ls.
+  Proof. intros [q ->]. unfold count. rewrite filter_app, app_length. lia. Qed.
+
+  (* where the listeners are after an execute_once that raised: either all their calls returned
+     normally, or they raised on the newest meta-event m and only a prefix of them was called
+     for it *)
+  Lemma execute_once1_failed sc fuel now s w ms e :
+    names_ok sc ->
+    execute_once1 sc fuel now s w = (ms, inr e) ->
+    exists macro', prefix (tr_metas ctx (m_tr ms)) (spec_meta sc now macro') /\
+      ((feed_ok1 now (tr_metas ctx (m_tr ms)) w /\ m_x ms = feed1 now (tr_metas ctx (m_tr ms)) w) \/
+       exists m before called,
+         tr_metas ctx (m_tr ms) = before ++ [m] /\ feed_ok1 now before w /\
+         prefix called (w_listeners w) /\ m_x ms = run now m called (feed1 now before w)).
+  Proof.
+    intros Hn H. pose proof (execute_once1_listeners _ _ _ _ _ _ _ H) as (_ & Hx & O).
+    unfold World.execute_once1 in H. apply (C10_prefix _ _ _ _ _ _ _ _ _ _ _ Hn) in H.
+    destruct H as (l & macro' & L & P). cbn [m_tr] in L. rewrite app_nil_r in L. subst l.
+    exists macro'. split; [exact P|].
+    destruct O as [O|(m & l' & e' & L & _ & O & E)]; [left; auto|]. right.
+    rewrite L in Hx. change (ObMeta m :: l') with ([ObMeta m] ++ l') in Hx.
+    rewrite tr_metas_app in Hx. change (tr_metas ctx [ObMeta m]) with [m] in Hx.
+    rewrite feed_app in Hx. cbn [feed fold_left] in Hx. fold (feed1 now (tr_metas ctx l') w) in Hx.
+    destruct (emit1_called now m (feed1 now (tr_metas ctx l') w)) as (called & Pc & Hr).
+    rewrite Hr in Hx. rewrite feed1_listeners in Pc.
+    exists m, (tr_metas ctx l'), called. repeat split; auto.
+    rewrite L. change (ObMeta m :: l') with ([ObMeta m] ++ l'). now rewrite tr_metas_app.
+  Qed.
+
+  (* C10_prefix, listener side.  When the call raises, a recorder attached once has received a
+     prefix of the meta-events of some macro step. *)
+  Theorem C10_prefix_recorder sc fuel now s w ms e id :
+    names_ok sc ->
+    execute_once1 sc fuel now s w = (ms, inr e) ->
+    count (is_rec id) (w_listeners w) = 1 ->
+    exists p macro', prefix p (spec_meta sc now macro') /\ log (m_x ms) id = log w id ++ p.
+  Proof.
+    intros Hn H C. destruct (execute_once1_failed _ _ _ _ _ _ _ Hn H) as (macro' & P & Hc).
+    destruct Hc as [[O Hx]|(m & before & called & Hm & O & Pc & Hx)].
+    - exists (tr_metas ctx (m_tr ms)), macro'. split; [exact P|].
+      rewrite Hx, (feed1_log _ _ _ _ O), C. cbn [repeat]. now rewrite flat_map_single.
+    - pose proof (count_prefix (is_rec id) _ _ Pc) as Hle. rewrite C in Hle.
+      rewrite Hx, run_log, (feed1_log _ _ _ _ O), C. cbn [repeat]. rewrite flat_map_single.
+      destruct (count (is_rec id) called) as [|[|n]]; [| |lia].
+      + exists before, macro'. split; [|cbn; now rewrite app_nil_r].
+        eapply prefix_trans; [|exact P]. exists [m]. exact Hm.
+      + exists (before ++ [m]), macro'. split; [now rewrite <- Hm|]. cbn. now rewrite app_assoc.
+  Qed.
+
+  (* C15_prefix.  When the call raises, a callable bound once has received the sent events of a
+     prefix of the meta-events of some macro step. *)
+  Theorem C15_prefix_callable sc fuel now s w ms e id :
+    names_ok sc ->
+    execute_once1 sc fuel now s w = (ms, inr e) ->
+    count (is_callable id) (w_listeners w) = 1 ->
+    exists p macro', prefix p (spec_meta sc now macro') /\
+                     calls (m_x ms) id = calls w id ++ map as_external (sent_events_of p).
+  Proof.
+    intros Hn H C. destruct (execute_once1_failed _ _ _ _ _ _ _ Hn H) as (macro' & P & Hc).
+    assert (E : forall l, flat_map (fun m => concat (repeat (forwarded m) 1)) l
+                          = map as_external (sent_events_of l)).
+    { intros l. rewrite <- flat_map_forwarded. apply flat_map_ext. intros m. cbn. apply app_nil_r. }
+    destruct Hc as [[O Hx]|(m & before & called & Hm & O & Pc & Hx)].
+    - exists (tr_metas ctx (m_tr ms)), macro'. split; [exact P|].
+      now rewrite Hx, (feed1_calls _ _ _ _ O), C, E.
+    - pose proof (count_prefix (is_callable id) _ _ Pc) as Hle. rewrite C in Hle.
+      rewrite Hx, run_calls, (feed1_calls _ _ _ _ O), C, E.
+      destruct (count (is_callable id) called) as [|[|n]]; [| |lia].
+      + exists before, macro'. split; [|cbn; now rewrite app_nil_r].
+        eapply prefix_trans; [|exact P]. exists [m]. exact Hm.
+      + exists (before ++ [m]), macro'. split; [now rewrite <- Hm|].
+        cbn [repeat concat]. rewrite app_nil_r, <- app_assoc. f_equal.
+        unfold sent_events_of. rewrite flat_map_app, map_app. f_equal.
+        cbn. rewrite app_nil_r. destruct m; reflexivity.
+  Qed.
 End WorldProofs.
+
+(* ------------------------------------------------------------------ non-vacuity *)
+(* A tiny chart r{a,b}, a --go / act--> b; the action sends an internal event (with a delay) and
+   notifies a user meta-event.  One recorder, one bound callable, one bound interpreter and one
+   property statechart that never goes final are attached. *)
+Module Example.
+  Open Scope string_scope.
+  Open Scope list_scope.
+  Definition st (n : name) (k : kind) (ini : option name) : state :=
+    mkState n k ini None None None [] [] [].
+  Definition ex_chart : chart :=
+    mkChart "ex" None None
+      [("r", st "r" KCompound (Some "a")); ("a", st "a" KBasic None); ("b", st "b" KBasic None)]
+      [("r", None); ("a", Some "r"); ("b", Some "r")]
+      [(None, ["r"]); (Some "r", ["a"; "b"]); (Some "a", []); (Some "b", [])]
+      [mkTrans "a" (Some "b") (Some "go") None (Some "act") 0 [] [] []].
+  (* the property statechart: one state, no transition *)
+  Definition prop_chart : chart :=
+    mkChart "p" None None [("p", st "p" KBasic None)] [("p", None)] [(None, ["p"]); (Some "p", [])] [].
+
+  Definition ping : event := mkEvent Internal "ping" [("delay", VInt 3); ("x", VInt 1)].
+  Definition note : event := mkEvent Meta "note" [("k", VStr "v")].
+  Definition ex_exec (c : call unit) (x : unit) : option (unit * list event) :=
+    match cl_kind c with CAction => Some (tt, [ping; note]) | _ => Some (tt, []) end.
+  Definition ex_eval (c : call unit) (x : unit) : option bool := Some true.
+
+  Definition w0 : world unit :=
+    mkWorld [LRec 0; LCallable 1; LInterp 2; LProp 3] [] []
+            [(2, init_istate 2 0%Z false tt)]
+            [(3, (prop_chart, init_istate 3 0%Z false tt))] [] 10.
+  Definition s0 : istate unit := init_istate 0 0%Z false tt.
+
+  (* first step: initialisation; second step at time 5 consumes go *)
+  Definition run1 := execute_once1 unit ex_exec ex_eval ex_chart 10 0%Z s0 w0.
+  Definition s1 : istate unit := queue_event (m_i (fst run1)) (mkEvent External "go" []).
+  Definition run2 := execute_once1 unit ex_exec ex_eval ex_chart 10 5%Z s1 (m_x (fst run1)).
+
+  Lemma ex_names_ok : names_ok ex_chart.
+  Proof. apply names_okb_sound. reflexivity. Qed.
+
+  Example ex_run1_log :
+    exists macro, snd run1 = inl macro /\
+      log unit (m_x (fst run1)) 0 = spec_meta ex_chart 0%Z macro /\
+      spec_meta ex_chart 0%Z macro =
+        [MStepStarted 0%Z; MEntered "r"; MEntered "a"; MStepEnded].
+  Proof. eexists. vm_compute. repeat split. Qed.
+
+  Example ex_run2_log :
+    exists macro, snd run2 = inl macro /\
+      log unit (m_x (fst run2)) 0 = log unit (m_x (fst run1)) 0 ++ spec_meta ex_chart 5%Z macro /\
+      spec_meta ex_chart 5%Z macro =
+        [MStepStarted 5%Z; MConsumed (mkEvent External "go" []); MExited "a";
+         MProcessed "a" (Some "b") (Some (mkEvent External "go" [])); MEntered "b";
+         MSent ping; MDelayedSent ping; MUser "note" [("k", VStr "v")]; MStepEnded] /\
+      calls unit (m_x (fst run2)) 1 = [as_external ping] /\
+      option_map (@i_eq unit) (bound unit (m_x (fst run2)) 2) = Some [(3%Z, as_external ping)] /\
+      i_iq (m_i (fst run2)) = [(8%Z, ping)] /\
+      option_map (fun p => i_time (snd p)) (prop unit (m_x (fst run2)) 3) = Some 5%Z.
+  Proof. eexists. vm_compute. repeat split. Qed.
+End Example.
+
+Print Assumptions C10_failfast_deliver.
+Print Assumptions C10_recorder_gets_all.
+Print Assumptions C15_detach.
+Print Assumptions C15_delivery.
+Print Assumptions C15_filter.
+Print Assumptions C10_failfast_prop.
+Print Assumptions C10_sync.
+Print Assumptions C10_complete_recorder.
+Print Assumptions C15_delivery_complete.
+Print Assumptions C10_prefix_recorder.
+Print Assumptions C15_prefix_callable.
